@@ -26,6 +26,21 @@ SEL_TEXT = {"fnr1": "FNR == 1", "fnr2": "FNR == 2", "fnrgt1": "FNR > 1", "file2"
             "nreven": "NR % 2 == 0", "nrgt1": "NR > 1"}
 
 
+# put/filter stages that use the same names for different things (B2)
+DSL_CHAINS = [
+    [["put", "func f(a,b) {return a <=> b} $s = joinv(sort([3,1,2], f), \";\")"], ["put", "func f(a,b) {return b <=> a} $t = joinv(sort([3,1,2], f), \";\")"]],
+    [["put", "func g(e) {return e . \"x\"} $s = joinv(apply([1,2], g), \";\")"], ["put", "func g(e) {return e . \"y\"} $t = joinv(apply([1,2], g), \";\")"]],
+    [["put", "@n += 1; $n1 = @n"], ["put", "@n += 10; $n2 = @n"]],
+    [["put", "NR == 2 {filter false}"], ["put", "$k = 1"]],        # (NR only in first stages: a pipe renumbers)
+    [["put", "is_present($a) {filter $a != 1}"], ["put", "filter is_present($b)"], ["put", "$z = 1"]],
+    [["put", "begin {@c = 5} $c1 = @c"], ["put", "begin {@c = 7} $c2 = @c . \":\" . $c1"]],
+    [["put", "subr p(str s) {$p1 = \"1:\" . s} call p(\"x\")"], ["put", "subr p(str s) {$p2 = \"2:\" . s} call p(\"y\")"]],
+    [["put", "-q", "@last = $*; end {emit @last}"], ["put", "-q", "@last = $*; end {emit @last}"]],
+    [["filter", "NR != 2"], ["put", "$w = 1"], ["filter", "is_present($a)"]],
+    [["put", "$u = sub(\"abc\", \"b\", \"X\")"], ["put", "$v = sub(\"abc\", \"B\"i, \"Y\") . sub(\"abc\", \"b\", \"Z\")"]],
+]
+
+
 def render_file(f, fmt):
     h, rows = f["header"], f["rows"]
     if fmt == "dkvp":
@@ -197,6 +212,22 @@ def run(tier, seed):
         cases.append({"shell": shell, "files": {"in.dkvp": b3.dkvp(s)}, "collect": True, "timeout_ms": 15000})
         meta.append({"t": "chain", "cs": cs, "s": s, "inter": inter})
 
+    # ---- B2. chains of put/filter stages: every stage has its own functions, subroutines, out-of-stream variables, begin/end
+    # blocks and filter conditions, so `A then B` must equal A's output piped into B even when the stages use the same names
+    for k, stages_argv in enumerate(DSL_CHAINS):
+        for s in streams[:: max(1, len(streams) // (40 if thorough else 12))]:
+            if not s:
+                continue
+            then_argv = [mlr]
+            for j, st in enumerate(stages_argv):
+                then_argv += (["then"] if j else []) + st
+            stages = [" ".join(shlex.quote(a) for a in [mlr] + st) for st in stages_argv]
+            stages[0] += " < in.dkvp"
+            shell = "%s < in.dkvp > then.out; %s > piped.out; echo done" % (
+                " ".join(shlex.quote(a) for a in then_argv), " | ".join(stages))
+            cases.append({"shell": shell, "files": {"in.dkvp": b3.dkvp(s)}, "collect": True, "timeout_ms": 15000})
+            meta.append({"t": "dslchain", "cs": [], "s": s, "inter": "dkvp", "stages": stages_argv})
+
     res = vlib.run_cases(cases)
     vlib.confirm_timeouts(cases, res)
     obs, omap = [], []
@@ -213,7 +244,7 @@ def run(tier, seed):
             files = rr.get("files") or {}
             if "then.out" not in files or "piped.out" not in files:
                 raise vlib.Inconclusive("chain run produced no output files: %s" % rr["stderr"][:300])
-            obs.append({"t": "chain", "cs": m["cs"], "s": m["s"], "out": b3.parse_dkvp(files["then.out"]),
+            obs.append({"t": m["t"], "cs": m["cs"], "s": m["s"], "out": b3.parse_dkvp(files["then.out"]),
                         "piped": b3.parse_dkvp(files["piped.out"]), "exit": rr["exit"], "files": [], "names": [], "implicit": False, "endnr": "",
                         "use": {"mode": "every", "sel": "all"}})
         omap.append(i)
@@ -228,7 +259,7 @@ def run(tier, seed):
                         {"argv": (cases[i].get("argv") or [None])[1:], "shell": cases[i].get("shell"), "files": m["files"], "observed": o["out"][:6],
                          "endnr": o["endnr"], "exit": o["exit"], "stderr": res[i]["stderr"][:400]})
         else:
-            V.violation({"why": p["why"], "verbs": [c["v"] + " " + c["o"] for c in m["cs"]], "inter": m["inter"]},
+            V.violation({"why": p["why"], "verbs": [c["v"] + " " + c["o"] for c in m["cs"]] or m.get("stages"), "inter": m["inter"]},
                         {"shell": cases[i]["shell"], "input": m["s"], "then": o["out"], "piped": o["piped"]})
     import copy
     badset = {idx for idx, _ in bad}
